@@ -282,6 +282,52 @@ def unroll_constant_loops(proj, fn, fn_node, limit=8):
     return new
 
 
+class _FoldStrings(ast.NodeTransformer):
+    """Constant folding of the ways a name is built from string constants: f"_{'x'}", "_" + "x", "_%s" % "x", "_{}".format("x")."""
+
+    @staticmethod
+    def _s(e):
+        return e.value if isinstance(e, ast.Constant) and isinstance(e.value, str) else None
+
+    def visit_JoinedStr(self, n):
+        self.generic_visit(n)
+        parts = []
+        for v in n.values:
+            if isinstance(v, ast.Constant) and isinstance(v.value, str):
+                parts.append(v.value)
+            elif isinstance(v, ast.FormattedValue) and v.conversion == -1 and v.format_spec is None and self._s(v.value) is not None:
+                parts.append(v.value.value)
+            else:
+                return n
+        return ast.copy_location(ast.Constant(value="".join(parts)), n)
+
+    def visit_BinOp(self, n):
+        self.generic_visit(n)
+        a = self._s(n.left)
+        if a is None:
+            return n
+        if isinstance(n.op, ast.Add) and self._s(n.right) is not None:
+            return ast.copy_location(ast.Constant(value=a + n.right.value), n)
+        if isinstance(n.op, ast.Mod):
+            args = n.right.elts if isinstance(n.right, ast.Tuple) else [n.right]
+            if all(self._s(x) is not None for x in args):
+                try:
+                    return ast.copy_location(ast.Constant(value=a % tuple(x.value for x in args)), n)
+                except (TypeError, ValueError):
+                    return n
+        return n
+
+    def visit_Call(self, n):
+        self.generic_visit(n)
+        if isinstance(n.func, ast.Attribute) and n.func.attr == "format" and self._s(n.func.value) is not None and not n.keywords \
+                and all(self._s(x) is not None for x in n.args):
+            try:
+                return ast.copy_location(ast.Constant(value=n.func.value.value.format(*[x.value for x in n.args])), n)
+            except (IndexError, KeyError, ValueError):
+                return n
+        return n
+
+
 class _FlowAliases(dict):
     """The flow-insensitive alias map (fallback) plus one map per CFG node's AST (state on entry of the node)."""
 
@@ -445,10 +491,12 @@ class RobustPersistEngine(PersistEngine):
                 if isinstance(r, ast.Name) and r.id in params:
                     used.add(r.id)
             elif isinstance(c, ast.Call):
-                # handed on to a further helper
+                # handed on to a further helper, possibly inside the name it builds: setattr(self, f"_{attribute}", value)
                 for x in list(c.args) + [k.value for k in c.keywords]:
                     if isinstance(x, ast.Name) and x.id in params:
                         used.add(x.id)
+                    elif isinstance(x, (ast.JoinedStr, ast.BinOp)) or (isinstance(x, ast.Call) and isinstance(x.func, ast.Attribute) and x.func.attr == "format"):
+                        used |= {y.id for y in ast.walk(x) if isinstance(y, ast.Name) and y.id in params}
             elif isinstance(c, ast.For) and isinstance(c.iter, ast.Name) and c.iter.id in params:
                 used.add(c.iter.id)  # the routes handed over as a sequence
         rebound = {x.id for x in ast.walk(target.node) if isinstance(x, ast.Name) and isinstance(x.ctx, (ast.Store, ast.Del))}
@@ -496,7 +544,7 @@ class RobustPersistEngine(PersistEngine):
                         return ast.copy_location(ast.Constant(value=v), x)
                     return x
 
-            node.body = [S().visit(st) for st in node.body]
+            node.body = [_FoldStrings().visit(S().visit(st)) for st in node.body]
             ast.fix_missing_locations(node)
             self._memo[key] = FuncInfo(name=target.name, module=target.module, node=node, cls=target.cls, kind=target.kind, prop=target.prop)
         return self._memo[key]
